@@ -352,11 +352,13 @@ class AXIDownConverter(LiteXModule):
         self.submodules += r_converter
         self.comb += axi_to.r.connect(r_converter.sink, omit={"id", "dest", "user", "resp"})
         self.comb += r_converter.source.connect(axi_from.r)
-        # ID/Dest/User (self.sync since +1 cycle latency in StrideConverter).
-        self.sync += axi_from.r.resp.eq(axi_to.r.resp)
-        self.sync += axi_from.r.user.eq(axi_to.r.user)
-        self.sync += axi_from.r.dest.eq(axi_to.r.dest)
-        self.sync += axi_from.r.id.eq(axi_to.r.id)
+        # ID/Dest/User (self.sync since +1 cycle latency in StrideConverter, updated with accepted beats only).
+        self.sync += If(axi_to.r.valid & axi_to.r.ready,
+            axi_from.r.resp.eq(axi_to.r.resp),
+            axi_from.r.user.eq(axi_to.r.user),
+            axi_from.r.dest.eq(axi_to.r.dest),
+            axi_from.r.id.eq(axi_to.r.id)
+        )
 
 class AXIConverter(LiteXModule):
     """AXI data width converter"""
